@@ -9,8 +9,8 @@ Open Scope Z_scope.
 
 Lemma inv_new c : cfg_ok c -> Inv c (new_mux c) [].
 Proof.
-  intros (Hn & Ht & Hms). unfold new_mux. constructor.
-  - repeat split; lia.
+  intros (Hn & Ht & Hms & Hst). unfold new_mux. constructor.
+  - repeat split; try lia; apply Hst.
   - cbn. lia.
   - cbn. apply repeat_length.
   - cbn. reflexivity.
